@@ -505,6 +505,7 @@ enum Impl {
 }
 
 fn run_impl(scope: &Scope, text: &str) -> Impl {
+  crate::util::note_case(text);
   match guarded(|| crate::c09::eval_text(scope, text)) {
     Ok(v) => Impl::Val(v),
     Err(m) => Impl::Panic(m),
